@@ -88,7 +88,9 @@ RevealL ==
 RevealR ==
   /\ Unknown("run", "r")
   /\ \E res \in {"coll", "str", "int", "float", "other", "glomerr"}, d \in Dbgs :
-       /\ (d = "inspect" => res \in {"coll", "glomerr"})   \* the outcome is not looked at
+       \* the debug flags wrap the spec and change nothing else: crossed with everything before
+       \* Run, with success / GlomError, and with one print configuration
+       /\ (d # "off" => res \in {"coll", "glomerr"})
        /\ (Slice => (d = "off" /\ res \in {"coll", "glomerr"}))
        /\ (m.route = "ident" => res # "glomerr")
        /\ (m.route = "ident" /\ (m.tgt = "emptymap" \/ TFmt = "toml") => res = "coll")
@@ -102,6 +104,7 @@ RevealP ==
   /\ Unknown("print", "p")
   /\ \E ind \in Indents, sc \in {"on", "off"} :
        /\ (Slice => (ind = "default" /\ sc = "off"))
+       /\ (m.cfg.r.dbg # "off" => (ind = "default" /\ sc = "off"))
        /\ Reveal("p", [indent |-> ind, scalar |-> sc])
 
 Next == (RevealF \/ RevealS \/ RevealT \/ RevealL \/ RevealR \/ RevealP \/ CliNext) /\ UNCHANGED model
